@@ -218,3 +218,13 @@ Theorem C17_mismatch_pointer_cut : forall raw e r, 1 <= len raw -> py_get raw 0 
   tfdf_unpack raw false e (Some FtFixed) = Err EInvalidLen.
 Proof. exact tfdf_unpack_pointer_cut. Qed.
 Print Assumptions C17_mismatch_pointer_cut.
+
+(* recorded finding (known_findings.d/uslp.json): with a pointer supplied for a rule that has
+   none, len() is not the packed size; C17_frame_len above therefore carries the hypothesis
+   "pointer supplied exactly when the standard has one" (tfdf_consistent) *)
+Theorem C17_frame_len_refuted :
+  tfdf_new VpNoSegmentation 0 [97; 98; 99; 100] (Some 5) = Ok (ftfdf unused_pointer_frame) /\
+  exists raw, frame_pack unused_pointer_frame false None = Ok raw /\
+              len raw = 12 /\ frame_len_of unused_pointer_frame = 14.
+Proof. exact frame_len_unused_pointer_refuted. Qed.
+Print Assumptions C17_frame_len_refuted.
